@@ -270,7 +270,8 @@ def _c06_cases(tier, seed):
     for stmt in ("user_version", "ddl", "adapter", "insert", "commit"):
         yield {"backend": "sqlite", "effect": stmt, "mode": "raise"}
     # fault SEQUENCES: an interrupted save followed by a complete one must restore exactly the latest state
-    for eff in ("json", "sched", "loss", "csv", "h5"):
+    for eff in ("json", "sched", "loss", "csv", "h5", "h5resize"):
+        # ("h5resize": the series file is open, the failure comes when the dataset is to be extended - e.g. disk full)
         yield {"backend": "json", "effect": eff, "mode": "raise-before", "then_complete": True}
     # the FIRST save into an empty folder, interrupted in each file (cut in the middle / the results table cut at every
     # line end): nothing complete is on disk, the restore must fail
@@ -377,6 +378,11 @@ def _c06_check(reg, case):
                 super().__init__(name, mode=mode, **kw)
         _json.dump, pickle.dump, pd.DataFrame.to_csv, h5py.File = j, p, c, H5
         jp.json.dump, jp.pickle.dump, jp.h5py.File = j, p, H5
+        orig_resize = h5py.Dataset.resize
+        if eff == "h5resize":
+            def failing_resize(self, *a, **kw):  # noqa: ARG001
+                raise Fault("injected crash at h5 resize")
+            h5py.Dataset.resize = failing_resize
         try:
             try:
                 cal.create_checkpoint(d)
@@ -386,6 +392,7 @@ def _c06_check(reg, case):
         finally:
             _json.dump, pickle.dump, pd.DataFrame.to_csv, h5py.File = orig["json"], orig["pickle"], orig["csv"], orig["h5"]
             jp.json.dump, jp.pickle.dump, jp.h5py.File = orig["json"], orig["pickle"], orig["h5"]
+            h5py.Dataset.resize = orig_resize
         if case.get("then_complete"):
             with e2e.quiet():
                 cal.create_checkpoint(d)          # the next, complete, save of the current state
